@@ -10,6 +10,7 @@ import Nstd.Generated.HashConst
     new t cap | newdef t | copy t | assign t | append t k v | prepend t k v | insert t pos k v
     remove t k | removeAt t pos | removeVal t pos | removeFront t | removeBack t | clear t | swap t
     appendAll t | removeAll t | setval t k v | hashstr <hex>
+    assignSelf t | swapSelf t | appendSelf t | removeSelf t     the object itself as the `other` argument
     origin n                             String-key build: form of the key arguments (owned, spare capacity, attached view, shared, …)
     hashnum w s x                        integral hash overloads: width, signedness, bit pattern
     wb t                                 white-box: capacity, bucket chains, free list, order list as item ids
@@ -157,6 +158,10 @@ def parseOp (ws : List String) : Option Op :=
   | ["appendAll", t] => do pure (.appendAll (← tab t))
   | ["removeAll", t] => do pure (.removeAll (← tab t))
   | ["setval", t, k, v] => do pure (.setValue (← tab t) (← k.toNat?) (← v.toNat?))
+  | ["assignSelf", t] => do pure (.assignSelf (← tab t))
+  | ["swapSelf", t] => do pure (.swapSelf (← tab t))
+  | ["appendSelf", t] => do pure (.appendSelf (← tab t))
+  | ["removeSelf", t] => do pure (.removeSelf (← tab t))
   | _ => none
 
 def parseKind (s : String) : Option Kind :=
